@@ -84,15 +84,15 @@ Definition wf_graph (g : graph) : Prop :=
 Definition node4 (x : N * N * N * N) : N := let '(_, _, v, _) := x in v.
 
 (** [BfsOrder] enumerates every node exactly once; an item at distance 0 is a root whose
-    parent is itself, any other item has a parent of which it is a successor and which was
-    returned before with the same root at distance one less. *)
+    parent is itself, any other item has a parent of which it is a successor and which is
+    itself returned with the same root at distance one less. *)
 Definition S_bfs_order_once : Prop :=
   forall (g : graph), wf_graph g ->
     let items := bfs_order g in
     Permutation (map node4 items) (nseq 0 (length g))
-    /\ (forall a b r p v d, items = a ++ (r, p, v, d) :: b ->
+    /\ (forall r p v d, In (r, p, v, d) items ->
           (d = 0 /\ p = v /\ r = v)
-          \/ (exists d' p', d = d' + 1 /\ In (r, p', p, d') a /\ In v (succs g p))).
+          \/ (exists d' p', d = d' + 1 /\ In (r, p', p, d') items /\ In v (succs g p))).
 
 (** [BfsOrderFromRoots]: each node at most once even when roots are repeated; the items
     are exactly the specification levels (no filter, fresh visitor) with their distances;
